@@ -55,9 +55,9 @@ pub fn base_history(r: &mut Sm, idx: usize) -> History {
 pub fn op_alphabet(kind: PKind, r: &mut Sm) -> Vec<Op> {
     let n = 5 + r.below(120) as u64;
     if kind == PKind::Prm {
-        vec![Op::Setup(0), Op::Setup(1), Op::Construct, Op::SetPd(1), Op::Solve(10)]
+        vec![Op::Setup(0), Op::Setup(1), Op::Construct, Op::SetPd(1), Op::Solve(10), Op::SetupMixed(0, 1), Op::Construct, Op::Solve(10)]
     } else {
-        vec![Op::Setup(0), Op::Setup(1), Op::Solve(n)]
+        vec![Op::Setup(0), Op::Setup(1), Op::Solve(n), Op::SetupMixed(0, 1), Op::Solve(n)]
     }
 }
 
@@ -95,7 +95,7 @@ fn judge_history<K: Kit>(ctx: &Ctx, b: &mut Batch, kit: &K, h: &History, recs: &
             ctx.violate(&format!("wrong-result:{pname}:{what}"), format!("call {ci} {} returned {} [history: {}]", c.op.short(), c.res.short(), h.describe()), replay());
         };
         match &c.op {
-            Op::Setup(_) | Op::SetPd(_) => {
+            Op::Setup(_) | Op::SetupMixed(..) | Op::SetPd(_) => {
                 if c.res != Res::Done {
                     unexpected("setup-did-not-return-normally");
                 }
@@ -200,7 +200,7 @@ fn run_one<K: Kit>(ctx: &Ctx, b: &mut Batch, kit: &K, h: &History, trigger: Trig
 
 pub fn run(tier: Tier, seed: u64) -> i32 {
     let ctx = Ctx::new("C08", tier, seed, "fault_enumeration");
-    let n_hist = tier.pick(4_000, 20_000);
+    let n_hist = tier.pick(8_000, 60_000);
     let n_worlds_exh = tier.pick(0usize, 24);
     let n_fault_worlds = tier.pick(48usize, 240);
     let n_w1 = tier.pick(4_000usize, 60_000);
@@ -215,6 +215,15 @@ pub fn run(tier: Tier, seed: u64) -> i32 {
             let al = op_alphabet(h.params.kind, &mut r);
             let len = 1 + r.below(8);
             h.ops = (0..len).map(|_| r.pick(&al).clone()).collect();
+            if r.bool(0.25) {
+                // the same problem object re-used with a new environment (checker)
+                let n = 5 + r.below(100) as u64;
+                h.ops = if h.params.kind == PKind::Prm {
+                    vec![Op::Setup(0), Op::Construct, Op::Solve(10), Op::SetupMixed(0, 1), Op::Construct, Op::Solve(10), Op::Setup(0), Op::Construct, Op::Solve(10)]
+                } else {
+                    vec![Op::Setup(0), Op::Solve(n), Op::SetupMixed(0, 1), Op::Solve(n), Op::Setup(0), Op::Solve(n)]
+                };
+            }
             with_kit!(h.problems[0].spec, K, kit => run_one::<K>(&ctx, &mut b, &kit, &h, Trigger::None));
             i += shards;
         }
